@@ -1,57 +1,160 @@
 import AdeptModel.GradAlloc
+import AdeptModel.GradObj
 import Driver.Common
 open Adept
 
+/-! line protocol of the `galloc` family (property C08): histories of object-level operations run on the object layer
+    `AdeptModel/GradObj.lean`, which calls the allocator model `AdeptModel/GradAlloc.lean`; one observation line per operation.
+    The protocol is documented at the top of harness/drv_galloc.cpp. -/
 namespace GallocDrv
-open GradAlloc
-/-- handle table: handle ↦ (index, n, scalar?) -/
+open GradAlloc GradObj
+
 structure St where
-  ga : GA := GradAlloc.stackInit
-  tab : List (Nat × Nat × Nat × Bool) := []
-def step (s : St) (ws : List String) : St × String :=
+  os : OS := {}
+  verbose : Bool := false
+
+def natList? (ws : List String) : Option (List Nat) := ws.mapM (·.toNat?)
+
+/-- `f<i>` or `r<lo>:<hi>:<st>` -/
+def ix? (w : String) : Option Ix :=
+  if w.startsWith "f" then (w.drop 1).toString.toNat?.map Ix.fix
+  else if w.startsWith "r" then
+    match (w.drop 1).toString.splitOn ":" with
+    | [a, b, c] => match a.toNat?, b.toNat?, c.toNat? with
+      | some a, some b, some c => some (Ix.rng a b c)
+      | _, _, _ => none
+    | _ => none
+  else none
+
+def insertSorted (x : Nat × String) : List (Nat × String) → List (Nat × String)
+  | [] => [x]
+  | y :: ys => if x.1 ≤ y.1 then x :: y :: ys else y :: insertSorted x ys
+
+def idxList (bs : List Blk) : String := String.intercalate "," (bs.map fun b => toString b.1)
+
+def ownStr (o : OwnObj) : String :=
+  if o.tag = 1 then "F[" ++ String.intercalate "," (o.bs.map fun b => s!"{b.1}+{b.2}") ++ "]"
+  else if o.tag = 2 then s!"V[{idxList o.bs}]c{o.cap}"
+  else if o.tag = 3 then s!"B[{idxList o.bs}]"
+  else s!"S[{idxList o.bs}]"
+
+def arrStr (s : OS) (a : ArrObj) : String :=
+  match a.st with
+  | none => match a.g with
+    | none => s!"A{a.kind}[e]"
+    | some g => s!"A{a.kind}[e!{g}]"
+  | some sid =>
+    let g := match a.g with | some g => toString g | none => "-9999"
+    match findStor s sid with
+    | some t => s!"A{a.kind}[{g}+{ext a.dims a.strides + 1}@{t.gi}/{t.n}/{t.links}~{a.off}]"
+    | none => s!"A{a.kind}[{g}+{ext a.dims a.strides + 1}@dangling]"
+
+/-- all live objects, by handle -/
+def dump (s : OS) : String :=
+  let l1 := s.owns.foldl (fun acc p => insertSorted (p.1, ownStr p.2) acc) []
+  let l2 := s.arrs.foldl (fun acc p => insertSorted (p.1, arrStr s p.2) acc) l1
+  String.join (l2.map fun p => s!" {p.1}={p.2}")
+
+def obs (st : St) (ret : Option Nat) : String :=
+  let base := observe st.os.ga ret
+  let base := if st.os.ub then base ++ " UB" else base
+  if st.verbose then base ++ " |" ++ dump st.os else base
+
+/-- run an object-level operation; `retOf` picks the index reported in the first field -/
+def doOp (st : St) (op : OOp) (retOf : OS → Option Nat := fun _ => none) : St × String :=
+  match expand st.os op with
+  | none => (st, "bad-op")
+  | some ps =>
+    let os' := prun st.os ps
+    let st' := { st with os := os' }
+    (st', obs st' (retOf os'))
+
+def ownIdx (h : Nat) (s : OS) : Option Nat :=
+  match s.owns.lookup h with
+  | some o => o.bs.head?.map (·.1)
+  | none => none
+def arrIdx (h : Nat) (s : OS) : Option Nat :=
+  match s.arrs.lookup h with
+  | some a => a.g
+  | none => none
+
+def isVecArr (s : OS) (h : Nat) : Bool :=
+  match s.arrs.lookup h with
+  | some a => a.kind == 1
+  | none => false
+
+def step (st : St) (ws : List String) : St × String :=
   match ws with
   | ["reset"] => ({}, "reset")
-  | ["a1", k] => match k.toNat? with
-    | some k => let (g, i) := reg1 s.ga
-                ({ ga := g, tab := (k, i, 1, true) :: s.tab.filter (·.1 ≠ k) }, observe g (some i))
-    | none => (s, "bad-op")
+  | ["cfg", p, v] => match p.toNat?, v.toNat? with
+    | some p, some v => if p < 1 then (st, "bad-op") else ({ st with os := { st.os with packet := p }, verbose := v != 0 }, "cfg")
+    | _, _ => (st, "bad-op")
+  | ["nr"] => doOp st .newRec
+  | ["pause"] => (st, obs st none)   -- registration is independent of pausing
+  | ["cont"] => (st, obs st none)
+  | "am" :: k :: kind :: dims => match k.toNat?, kind.toNat?, natList? dims with
+    | some k, some kind, some dims => doOp st (.arr k kind dims false)
+    | _, _, _ => (st, "bad-op")
+  | "amx" :: k :: kind :: dims => match k.toNat?, kind.toNat?, natList? dims with
+    | some k, some kind, some dims => if dims.any (· == 0) then (st, "bad-op") else doOp st (.arr k kind dims true)
+    | _, _, _ => (st, "bad-op")
+  | "rz" :: k :: dims => match k.toNat?, natList? dims with
+    | some k, some dims => doOp st (.resize k dims false)
+    | _, _ => (st, "bad-op")
+  | "rzx" :: k :: dims => match k.toNat?, natList? dims with
+    | some k, some dims => if dims.any (· == 0) then (st, "bad-op") else doOp st (.resize k dims true)
+    | _, _ => (st, "bad-op")
+  | "sl" :: k :: src :: spec => match k.toNat?, src.toNat?, spec.mapM ix? with
+    | some k, some src, some spec => doOp st (.slice k src spec)
+    | _, _, _ => (st, "bad-op")
+  | [c, k] =>
+    match k.toNat? with
+    | none => (st, "bad-op")
+    | some k =>
+      if c = "a1" then doOp st (.act k) (ownIdx k)
+      else if c = "ap" then doOp st (.act k)
+      else if c = "vn" then doOp st (.vecNew k)
+      else if c = "vp" then doOp st (.vecPush k)
+      else if c = "vo" then doOp st (.vecPop k)
+      else if c = "cl" then doOp st (.clear k)
+      else if c = "d" then doOp st (.del k)
+      else (st, "bad-op")
   | [c, k, n] =>
-    if c = "av" ∨ c = "af" then
-      match k.toNat?, n.toNat? with
-      | some k, some n =>
-        if c = "af" ∧ (n < 1 ∨ n > 4) then (s, "bad-op") else
-        let (g, i) := regN n s.ga
-        ({ ga := g, tab := (k, i, n, false) :: s.tab.filter (·.1 ≠ k) }, observe g (some i))
-      | _, _ => (s, "bad-op")
-    else if c = "avx" then
-      -- a block whose data allocation fails: nothing is registered
-      match k.toNat?, n.toNat? with
-      | some _, some n => if n < 1 then (s, "bad-op") else (s, observe s.ga none)
-      | _, _ => (s, "bad-op")
-    else if c = "rs" ∨ c = "rsx" then
-      -- resize of a block: the old block is released first; `rsx`: the new allocation fails, nothing is registered
-      match k.toNat?, n.toNat? with
-      | some k, some n =>
-        if n < 1 then (s, "bad-op") else
-        match s.tab.find? (·.1 = k) with
-        | some (_, i, n0, false) =>
-          let g := unregN i n0 s.ga
-          if c = "rs" then
-            let (g, i') := regN n g
-            ({ ga := g, tab := (k, i', n, false) :: s.tab.filter (·.1 ≠ k) }, observe g (some i'))
-          else ({ ga := g, tab := s.tab.filter (·.1 ≠ k) }, observe g none)
-        | _ => (s, "bad-op")
-      | _, _ => (s, "bad-op")
-    else (s, "bad-op")
-  | ["d", k] => match k.toNat? with
-    | some k => match s.tab.find? (·.1 = k) with
-      | some (_, i, n, sc) =>
-        let g := if sc then unreg1 i s.ga else unregN i n s.ga
-        ({ ga := g, tab := s.tab.filter (·.1 ≠ k) }, observe g none)
-      | none => (s, "bad-op")
-    | none => (s, "bad-op")
-  | ["nr"] => let g := newRecording s.ga; ({ s with ga := g }, observe g none)
-  | ["pause"] => (s, observe s.ga none)   -- registration is independent of pausing
-  | ["cont"] => (s, observe s.ga none)
-  | _ => (s, "bad-op")
+    match k.toNat?, n.toNat? with
+    | some k, some n =>
+      if c = "av" then (if n < 1 then (st, "bad-op") else doOp st (.arr k 1 [n] false) (arrIdx k))
+      else if c = "af" then (if n < 1 ∨ n > 4 then (st, "bad-op") else doOp st (.fixed k n) (ownIdx k))
+      else if c = "avx" then
+        -- a block whose data allocation fails: nothing is registered, no object comes to exist
+        (if n < 1 then (st, "bad-op") else doOp st (.arr k 1 [n] true))
+      else if c = "rs" then
+        (if n < 1 ∨ !isVecArr st.os k then (st, "bad-op") else doOp st (.resize k [n] false) (arrIdx k))
+      else if c = "rsx" then
+        -- resize whose data allocation fails (the old block is released, nothing is registered), then the emptied object is destroyed
+        (if n < 1 ∨ !isVecArr st.os k then (st, "bad-op") else
+          match expand st.os (.resize k [n] true) with
+          | none => (st, "bad-op")
+          | some ps =>
+            let os1 := prun st.os ps
+            match expand os1 (.del k) with
+            | none => (st, "bad-op")
+            | some ps2 => let st' := { st with os := prun os1 ps2 }; (st', obs st' none))
+      else if c = "ac" then (if isAct st.os n then doOp st (.act k) else (st, "bad-op"))
+      else if c = "sw" then doOp st (.swapAct k n)
+      else if c = "ve" then doOp st (.vecErase k n)
+      else if c = "bn" then doOp st (.blkNew k n)
+      else if c = "cp" then doOp st (.copy k n)
+      else if c = "ln" then doOp st (.link k n)
+      else if c = "as" then doOp st (.assign k n)
+      else if c = "sa" then doOp st (.swapArr k n)
+      else (st, "bad-op")
+    | _, _ => (st, "bad-op")
+  | [c, k, a, b] => match k.toNat?, a.toNat?, b.toNat? with
+    | some k, some a, some b =>
+      if !(isAct st.os a && isAct st.os b) then (st, "bad-op")
+      else if c = "ae" then doOp st (.act k)
+      else if c = "at" then doOp st (.actTemp k)
+      else (st, "bad-op")
+    | _, _, _ => (st, "bad-op")
+  | _ => (st, "bad-op")
 end GallocDrv
